@@ -54,19 +54,20 @@ Section Spec.
     end.
 
   Lemma rus_loop_lines : forall lines ln last pre,
-      is_semi last = false ->
+      is_semi last = false -> ends_semi ln = false ->
       match first_close ln lines with
       | Some (c, r) => rus_loop (whole_lines lines) ln last pre = RLine c (whole_lines r)
       | None => exists x, rus_loop (whole_lines lines) ln last pre = REof x
       end.
   Proof.
-    induction lines as [|l r IH]; intros ln last pre H; simpl.
-    - rewrite H. rewrite orb_true_r. destruct (last_char_ok ln last) as [c Hc]. rewrite Hc. eauto.
+    induction lines as [|l r IH]; intros ln last pre H He; simpl.
+    - rewrite H. rewrite orb_true_r. destruct (last_char_semi ln last H) as [c [Hc Hs]]. rewrite Hc.
+      rewrite Hs, He. eauto.
     - rewrite H. rewrite orb_true_r.
       destruct (last_char_semi (ln ++ l) last H) as [c [Hc Hs]]. rewrite Hc.
       destruct (ends_semi (ln ++ l)) eqn:E.
       + destruct r as [|l2 r2]; simpl; rewrite Hs; reflexivity.
-      + apply IH. exact Hs.
+      + apply IH; [exact Hs|exact E].
   Qed.
 
   Lemma rus_lines : forall lines,
@@ -74,7 +75,7 @@ Section Spec.
       | Some (c, r) => read_until_semicolon (whole_lines lines) = RLine c (whole_lines r)
       | None => exists x, read_until_semicolon (whole_lines lines) = REof x
       end.
-  Proof. intros lines. apply rus_loop_lines. reflexivity. Qed.
+  Proof. intros lines. apply rus_loop_lines; reflexivity. Qed.
 
   Lemma split_first_close : forall lines acc,
       split_lines acc lines = match first_close acc lines with
